@@ -241,14 +241,14 @@ fn execute_chain(progs: &[Vec<String>], choices: &[usize], scheduled: bool, rng:
         let gate = gate.clone();
         let k = prog.len() as u32;
         for j in 1..=k {
-            let id = 3000 + (tid as u32 + 1) * 10 + j;
+            let id = 3000 + (tid as u32 + 1) * 1000 + j;
             ids.push(id);
             reset_id(id);
         }
         bodies.push(Box::new(move || {
             let mut refs: Vec<(&Val, u32)> = vec![];
             for j in 1..=k {
-                let id = 3000 + (tid as u32 + 1) * 10 + j;
+                let id = 3000 + (tid as u32 + 1) * 1000 + j;
                 yield_now("begin");
                 log.lock().unwrap().push(json!({"ev": "push", "t": tid + 1, "id": id}));
                 let r: &Val = u.make_ref(Val::new(id));
